@@ -762,6 +762,40 @@ func (ig *Integration) setCols() {
 
 func (ig Integration) Name() string { return ig.name }
 
+// Reports whether restricting eth_getLogs to the log_addr filter's
+// arguments cannot exclude a log that the filters would accept: the
+// filter must select (not exclude) whole addresses, and no other
+// filter may accept a log on its own.
+func (ig Integration) pushdownAddrs(f Filter) bool {
+	if f.Op != "contains" && f.Op != "eq" {
+		return false
+	}
+	for _, arg := range f.Arg {
+		if len(eth.DecodeHex(arg)) != 20 {
+			return false
+		}
+	}
+	var (
+		nfilters int
+		count    func([]Input)
+	)
+	count = func(inputs []Input) {
+		for _, inp := range inputs {
+			if len(inp.Filter.Arg) > 0 || len(inp.Filter.Ref.Integration) > 0 {
+				nfilters++
+			}
+			count(inp.Components)
+		}
+	}
+	count(ig.Event.Inputs)
+	for _, bd := range ig.Block {
+		if len(bd.Filter.Arg) > 0 || len(bd.Filter.Ref.Integration) > 0 {
+			nfilters++
+		}
+	}
+	return nfilters == 1 || ig.filterAGG == "and"
+}
+
 func (ig Integration) Filter() glf.Filter {
 	var (
 		fields []string
@@ -771,6 +805,9 @@ func (ig Integration) Filter() glf.Filter {
 		fields = append(fields, ig.Block[i].Name)
 
 		if ig.Block[i].Name == "log_addr" && len(ig.Block[i].Filter.Arg) > 0 {
+			if !ig.pushdownAddrs(ig.Block[i].Filter) {
+				continue
+			}
 			for _, arg := range ig.Block[i].Filter.Arg {
 				addrs = append(addrs, eth.EncodeHex(eth.DecodeHex(arg)))
 			}
